@@ -1,0 +1,15 @@
+//go:build verif
+// +build verif
+
+package circuit
+
+import "time"
+
+// VerifSnapshot returns the breaker's internal state under its own mutex. It is compiled only with
+// the `verif` build tag and is used by the runtime monitors to observe the counters, which have no
+// accessor otherwise. It does not evaluate the open -> half-open transition (it has no side effects).
+func (b *Breaker) VerifSnapshot() (state State, counts Counts, generation int, backoffExpires time.Time) {
+	b.mutex.Lock()
+	defer b.mutex.Unlock()
+	return b.state, b.counts, b.generation, b.backoffExpires
+}
